@@ -152,15 +152,13 @@ def generate_mpo(I, terms=None, opts_svd=None, N=None, f_map=None) -> MpsMpoOBC:
     # i.e., operators at later sites in the chain are applied first
     # sign to permute to canonical order is calculated in signs
     f_ordered = lambda s0, s1: s0 <= s1
-    signs, sitess, opss, op_patterns = [], [], [], []
+    signs, sitess, opss, op_patterns, kept_terms = [], [], [], [], []
     for term in terms:
         if any(site < 0 or site > N or not isinstance(site, numbers.Integral) for site in term.positions):
             raise YastnError("Hterm: positions should be in 0, 1, ..., N-1.")
         if any(op.s != unique_ops[Iind[site]].s for op, site in zip(term.operators, term.positions)):
             raise YastnError("Hterm: operator should be a Tensor with ndim=2 and signature matching identity I at the corresponding site.")
         #
-        f_positions = term.positions if f_map is None else [f_map[site] for site in term.positions]
-        signs.append(sign_canonical_order(*term.operators, sites=f_positions, f_ordered=f_ordered))
         sites_ops = sorted(zip(term.positions, term.operators), key=itemgetter(0))
         sites, ops = [], []
         for site, group in groupby(sites_ops, key=itemgetter(0)):
@@ -168,10 +166,19 @@ def generate_mpo(I, terms=None, opts_svd=None, N=None, f_map=None) -> MpsMpoOBC:
             op = next(group)[1]
             for el in group:
                 op = op @ el[1]
-            ops.append(ind_list_tensors(op, unique_ops))
+            ops.append(op)
+        if any(op.size == 0 for op in ops):  # an on-site product vanishes identically: the term contributes nothing
+            continue
+        kept_terms.append(term)
+        f_positions = term.positions if f_map is None else [f_map[site] for site in term.positions]
+        signs.append(sign_canonical_order(*term.operators, sites=f_positions, f_ordered=f_ordered))
+        ops = [ind_list_tensors(op, unique_ops) for op in ops]
         sites.append(N)
         sitess.append(sites)
         opss.append(ind_list(ops, op_patterns))
+    if not kept_terms:  # every term vanishes: identity with zero amplitude
+        kept_terms, signs, sitess, opss = [Hterm(0., (), ())], [1], [[N]], [ind_list([], op_patterns)]
+    terms, M = kept_terms, len(kept_terms)
 
     n_patterns = [[unique_ops[ind].n for ind in ops] for ops in op_patterns]
     acc_n_patterns = [[sym.add_charges(*ns[n:]) for n in range(len(ns) + 1)] for ns in n_patterns]
